@@ -49,6 +49,98 @@ def streams(rng, tier):
     return [("isValidCell", ops), ("static-helpers", ops2), ("macros", ops3)]
 
 
+# closure clause: which tokens of an "ok ..." answer are cells that the library returned
+_FIRST = lambda t: t[1:2]
+_LIST = lambda t: t[2:2 + int(t[1])]
+_PAIRS = lambda t: [x for x in t[2:2 + 2 * int(t[1]):2] if x != "0"]
+_LIST0 = lambda t: [x for x in t[2:2 + int(t[1])] if x != "0"]   # arrays documented as zero-padded
+_ALL = lambda t: t[1:]
+CELL_OUT = {"parent": _FIRST, "center": _FIRST, "pos2cell": _FIRST, "ll2c": _FIRST, "nbr": _FIRST,
+            "ij2cell": _FIRST, "edgeorigin": _FIRST, "edgedest": _FIRST, "fromstr": None,
+            "children": _LIST, "iterhead": _LIST, "ring": _LIST, "path": _LIST, "compact": _LIST0,
+            "pentagons": _LIST, "res0": _LIST, "edgecells": _ALL, "disk": _PAIRS}
+
+
+def closure_ops(rng, tier, budget):
+    """API calls whose returned cells are passed through the documented layout (runtime monitor of the
+    closure clause; not a theorem for the functions outside the proved hierarchy/traversal layer)"""
+    import struct
+    import math
+    ops = ["res0"] + [f"pentagons {r}" for r in range(16)]
+    n = (1500 if tier == "quick" else 20000) * budget
+    cells = gen.structured_valid_cells()[::5] + [gen.rand_cell(rng) for _ in range(n)]
+    for h in cells:
+        res = (h >> 52) & 15
+        k = rng.randrange(9)
+        if k == 0:
+            ops.append(f"parent {gen.hx(h)} {rng.randrange(0, res + 1)}")
+            ops.append(f"center {gen.hx(h)} {rng.randrange(res, 16)}")
+        elif k == 1:
+            # child positions over the whole range of every depth (beyond 2^31 and 2^32 for deep ones)
+            cres = rng.randrange(res, 16)
+            sz = gen.children_size(h, cres)
+            for pos in {0, sz - 1, rng.randrange(sz), min(sz - 1, 2 ** 31 + rng.randrange(2 ** 20)),
+                        min(sz - 1, 2 ** 32 + rng.randrange(2 ** 33)), sz // 2, min(sz - 1, rng.randrange(2 ** 40))}:
+                ops.append(f"pos2cell {pos} {gen.hx(h)} {cres}")
+        elif k == 2:
+            lat = math.asin(rng.uniform(-1, 1)); lng = rng.uniform(-math.pi, math.pi)
+            f = lambda x: struct.pack(">d", x).hex()
+            ops.append(f"ll2c {f(lat)} {f(lng)} {rng.randrange(16)}")
+        elif k == 3:
+            ops.append(f"nbr {gen.hx(h)} {rng.randrange(1, 7)} {rng.randrange(6)}")
+            ops.append(f"disk {gen.hx(h)} {rng.randrange(0, 4)}")
+        elif k == 4:
+            ops.append(f"ij2cell {gen.hx(h)} {rng.randrange(-30, 30)} {rng.randrange(-30, 30)} 0")
+            ops.append(f"ring {gen.hx(h)} {rng.randrange(0, 5)}")
+        elif k == 5:
+            e = (h & ~(0xF << 59) & ~(7 << 56)) | (2 << 59) | (rng.randrange(1, 7) << 56)
+            ops += [f"edgeorigin {gen.hx(e)}", f"edgedest {gen.hx(e)}", f"edgecells {gen.hx(e)}"]
+        elif k == 6:
+            if res < 15:
+                ops.append(f"children {gen.hx(h)} {min(15, res + rng.randrange(0, 4))}")
+            ops.append(f"iterhead {gen.hx(h)} {rng.randrange(res, 16)} 40")
+        elif k == 7:
+            s = gen.rand_set(rng, maxsize=200)
+            ops.append("compact " + " ".join([str(len(s))] + [gen.hx(x) for x in s]))
+        else:
+            g = h   # a cell at most two levels away in the hierarchy: short paths
+            for r in (res, res - 1):
+                if r >= 1:
+                    g = (g & ~(7 << (3 * (15 - r)))) | (rng.randrange(7) << (3 * (15 - r)))
+            if not gen.layout_spec(g):
+                g = h
+            ops.append(f"path {gen.hx(h)} {gen.hx(g)}")
+    return ops
+
+
+def closure_eval(ctx, rng, tier, budget):
+    ops = closure_ops(rng, tier, budget)
+    out = ctx.c(ops, tag="closure")
+    viol = []
+    ncell = 0
+    per = {}
+    for o, a in zip(ops, out):
+        t = a.split()
+        ex = CELL_OUT.get(o.split()[0])
+        if not t or t[0] != "ok" or ex is None:
+            continue
+        try:
+            cs = ex(t)
+        except (ValueError, IndexError):
+            continue
+        per[o.split()[0]] = per.get(o.split()[0], 0) + len(cs)
+        for c in cs:
+            ncell += 1
+            if not gen.layout_spec(int(c, 16)):
+                viol.append({"what": f"closure clause: {o.split()[0]} returned {c}, which is not a valid cell by the "
+                                     "documented layout", "ops": [o], "expected": "only valid cells in the result",
+                             "observed": a[:300], "key": "closure:" + o, "closure_cell": c})
+                break
+        if len(viol) >= 10:
+            break
+    return len(ops), ncell, per, viol
+
+
 def evaluate(ctx, rng, tier, focus, budget, broken):
     """C-side evaluator: real isValidCell vs the python copy of the documented layout"""
     n = (40000 if tier == "quick" else 400000) * budget
@@ -73,11 +165,21 @@ def evaluate(ctx, rng, tier, focus, budget, broken):
                          "observed": a, "key": "valid:" + gen.hx(h)})
             if len(viol) >= 20:
                 break
-    return {"evaluations": len(ops), "violations": viol,
-            "coverage": {"values": len(vals), "valid_by_spec": npos},
+    nclo, ncell, per, cviol = closure_eval(ctx, rng, tier, budget)
+    viol += cviol
+    return {"evaluations": len(ops) + nclo, "violations": viol,
+            "coverage": {"values": len(vals), "valid_by_spec": npos, "closure_calls": nclo,
+                         "closure_cells_checked": ncell, "closure_cells_by_op": per},
             "samples": [{"op": ops[i], "c_answer": out[i]} for i in (0, len(ops) // 2, len(ops) - 1)]}
 
 
 def replay_verdict(rp, out):
+    op = rp["ops"][0].split()[0]
+    if op != "valid":
+        t = out[0].split()
+        ex = CELL_OUT.get(op)
+        if not t or t[0] != "ok" or ex is None:
+            return False
+        return any(not gen.layout_spec(int(c, 16)) for c in ex(t))
     h = int(rp["ops"][0].split()[1], 16)
     return out[0] != ("ok 1" if gen.layout_spec(h) else "ok 0")
